@@ -1,6 +1,6 @@
 (* C04 correspondence: how one observed implementation result is compared with the model.
    Used by the generated run/C04/cases_*.v files.  Not part of any theorem. *)
-From Hy Require Import lib.Harness lib.Reader model.C04_Framing model.C04_Dispatch.
+From Hy Require Import lib.Harness lib.Reader model.C04_Framing model.C04_Dispatch model.C04_Client.
 From Coq Require Import ZArith.
 Local Open Scope N_scope.
 
@@ -53,7 +53,20 @@ Record cstream := mkCS { cs_f : fn; cs_segs : list seg; cs_cuts : list N; cs_obs
    on the chunking: C04_dispatched_request_decoded quantifies over it). *)
 Record estream := mkES { es_segs : list seg; es_dialed : bool; es_vlen : N; es_vdg : N }.
 
+(* one client-side session (real clientImpl.TCP + tcpConn.Read on a loopback QUIC stream, peer = scripted raw
+   server): the bytes the peer wrote on the stream (response frame ++ payload), how they were cut when the
+   application's first Read ran (cuts: the part queued at that moment, then the rest), and what the application
+   saw - how TCP() ended (0 connection, 7 DialError, 1/2/3/4 error class), how its Reads ended (9 it stopped after
+   plen bytes, 1 io.EOF, 7 DialError, 2/3/4 error class), length / checksum of the DialError message and of the
+   concatenation of everything its Reads returned.  The model is client_session on that script with the same
+   buffer sizes (for error-free deliveries the result does not depend on the cuts: C04_client_reads_exactly_payload
+   quantifies over them). *)
+Record cliobs := mkCO { co_tcp : N; co_final : N; co_mlen : N; co_mdg : N; co_glen : N; co_gdg : N }.
+
+Definition ecls (e : errc) : N := match e with EEof => 1 | EShort => 2 | EInvalid => 3 | _ => 4 end.
+
 Inductive case :=
+| CCli (fo fin : bool) (segs : list seg) (cuts : list N) (plen : N) (bufs : list N) (o : cliobs)
 | CE2E (l : list estream)
 | CConc (l : list cstream)
 | CRead (f : fn) (segs : list seg) (cuts : list N) (o : obs)
@@ -87,6 +100,18 @@ Definition obs_eqb (a b : obs) : bool :=
 
 Definition check (c : case) : bool :=
   match c with
+  | CCli fo fin segs cuts plen bufs o =>
+      let stream := concat (map seg_bytes segs) in
+      match fst (run_on (client_session fo fin (N.to_nat plen) (map N.to_nat bufs) (length stream + 8))
+                        (mk_script stream cuts)) with
+      | Ok (t, (got, f)) =>
+          let tc := match t with TConn _ => 0 | TDial _ => 7 | TErr e => ecls e end in
+          let fc := match f with FNone => 9 | FErr e => ecls e | FDial _ => 7 | FFuel => 99 end in
+          let m := match t, f with TDial m, _ => m | _, FDial m => m | _, _ => [] end in
+          (tc =? co_tcp o) && (fc =? co_final o) && (N.of_nat (length m) =? co_mlen o) && (cksum m =? co_mdg o) &&
+          (N.of_nat (length got) =? co_glen o) && (cksum got =? co_gdg o)
+      | _ => false
+      end
   | CE2E l =>
       forallb (fun s =>
                  match fst (run_on server_dispatch (mk_script (concat (map seg_bytes (es_segs s))) [])) with
